@@ -17,6 +17,7 @@
 //! rest of such a document is still judged with the missing `---` line inserted.
 
 mod classes;
+mod families;
 
 use serde::Serialize;
 use serde_json::{Value, json};
@@ -24,7 +25,7 @@ use std::cell::RefCell;
 use std::collections::{BTreeMap, HashMap};
 use std::rc::Rc;
 use vcore::rng::{Rng, fnv};
-use vcore::run::{Finish, Run, par_range};
+use vcore::run::{Finish, Run, Tier, par_range};
 use vcore::ty::{self, TSer, TVal, Ty, TyCfg, TyGrammar};
 use vcore::tygen::{self, Opt, Rt, Shrinker, Stage};
 
@@ -112,7 +113,13 @@ fn judge(run: &Run, ty: &Ty, v: &TVal, o: &Opt, rt: &Rt, part: &str) {
                 lcount("held", 1);
             }
             if v.node_count() >= 2 {
-                run.nontrivial(tygen::hash_case(ty, v, o));
+                // the hash set of distinct non-trivial cases is fed with a deterministic sample (by hash),
+                // the exact count goes to a counter: hundreds of millions of hashes would not fit in memory
+                lcount("nontrivial_held_cases", 1);
+                let h = tygen::hash_case(ty, v, o);
+                if h % NT_SAMPLE.load(std::sync::atomic::Ordering::Relaxed) == 0 {
+                    run.nontrivial(h);
+                }
             }
         }
         Some(Stage::Panic(p)) => {
@@ -146,6 +153,8 @@ fn judge(run: &Run, ty: &Ty, v: &TVal, o: &Opt, rt: &Rt, part: &str) {
         }
     }
 }
+
+static NT_SAMPLE: std::sync::atomic::AtomicU64 = std::sync::atomic::AtomicU64::new(1);
 
 static EXPLORE: std::sync::Mutex<BTreeMap<String, (u64, String)>> = std::sync::Mutex::new(BTreeMap::new());
 
@@ -292,6 +301,138 @@ fn check_anchored(run: &Run, ty: &Ty, v: &TVal, o: &Opt) {
     }
 }
 
+/// One shared value (`RcAnchor`, first occurrence defines the anchor, later ones are aliases) placed
+/// inside the C13 shapes.
+enum Holder {
+    /// struct { f0: A, f1: A }
+    Struct(SharedPair),
+    /// [A, A]
+    Seq(Vec<serde_saphyr::RcAnchor<OwnedVal>>),
+    /// [[A, A], [A]]
+    SeqInSeq(Vec<Vec<serde_saphyr::RcAnchor<OwnedVal>>>),
+    /// {k0: A, k1: A}
+    MapVals(Vec<(String, serde_saphyr::RcAnchor<OwnedVal>)>),
+    /// [struct { f0: A, f1: A }]
+    StructInSeq(Vec<SharedPair>),
+    /// V1([A, A])
+    Variant(Vec<serde_saphyr::RcAnchor<OwnedVal>>),
+}
+
+impl Serialize for Holder {
+    fn serialize<S: serde::Serializer>(&self, s: S) -> Result<S::Ok, S::Error> {
+        use serde::ser::SerializeMap;
+        match self {
+            Holder::Struct(p) => p.serialize(s),
+            Holder::Seq(v) => v.serialize(s),
+            Holder::SeqInSeq(v) => v.serialize(s),
+            Holder::MapVals(ps) => {
+                let mut m = s.serialize_map(Some(ps.len()))?;
+                for (k, v) in ps {
+                    m.serialize_entry(k, v)?;
+                }
+                m.end()
+            }
+            Holder::StructInSeq(v) => v.serialize(s),
+            Holder::Variant(v) => s.serialize_newtype_variant("E1", 1, "V1", v),
+        }
+    }
+}
+
+/// Anchors inside shapes: the emitted text must be one document that reads back, into the plain
+/// holder type, as the value repeated (an alias expands to the anchored value), and must really
+/// define and use one anchor. Judged only when the same holder without anchors round-trips.
+fn check_anchored_shapes(run: &Run, ty: &Ty, v: &TVal, o: &Opt) {
+    use serde_saphyr::RcAnchor;
+    let rc = std::rc::Rc::new(OwnedVal(ty.clone(), v.clone()));
+    let a = || RcAnchor(rc.clone());
+    let pair = || SharedPair { f0: a(), f1: a() };
+    let st = Ty::strukt(7, vec![ty.clone(), ty.clone()], false);
+    let sv = TVal::Struct(vec![v.clone(), v.clone()]);
+    let holders: Vec<(&'static str, Holder, Ty, TVal)> = vec![
+        ("struct", Holder::Struct(pair()), st.clone(), sv.clone()),
+        ("seq", Holder::Seq(vec![a(), a()]), Ty::seq(ty.clone()), TVal::Seq(vec![v.clone(), v.clone()])),
+        (
+            "seq-in-seq",
+            Holder::SeqInSeq(vec![vec![a(), a()], vec![a()]]),
+            Ty::seq(Ty::seq(ty.clone())),
+            TVal::Seq(vec![TVal::Seq(vec![v.clone(), v.clone()]), TVal::Seq(vec![v.clone()])]),
+        ),
+        (
+            "map-values",
+            Holder::MapVals(vec![("k0".into(), a()), ("k1".into(), a())]),
+            Ty::map(Ty::Str, ty.clone()),
+            TVal::Map(vec![(TVal::Str("k0".into()), v.clone()), (TVal::Str("k1".into()), v.clone())]),
+        ),
+        ("struct-in-seq", Holder::StructInSeq(vec![pair()]), Ty::seq(st.clone()), TVal::Seq(vec![sv.clone()])),
+        (
+            "newtype-variant",
+            Holder::Variant(vec![a(), a()]),
+            Ty::enumeration(1, 0, vec![ty::VariantTy::Unit, ty::VariantTy::Newtype(Ty::seq(ty.clone()))]),
+            TVal::variant(1, TVal::Seq(vec![v.clone(), v.clone()])),
+        ),
+    ];
+    let shared_text = match (tygen::kind(ty, v), v) {
+        ("str" | "str-multiline", TVal::Str(sv)) => Some(sv.as_str()),
+        ("str" | "str-multiline", TVal::Some(b)) => match &**b {
+            TVal::Str(sv) => Some(sv.as_str()),
+            _ => None,
+        },
+        _ => None,
+    };
+    if let Some(sv) = shared_text
+        && (sv.contains('\n') || sv.chars().count() > o.folded_wrap_chars)
+    {
+        // a shared string written as a block scalar loses its anchor: C14's listed finding (C14:payload:block-scalar:*)
+        lcount("anchored_shapes/skipped-block-scalar-payload(C14-finding)", 1);
+        return;
+    }
+    for (which, h, rty, rv) in &holders {
+        run.eval();
+        let case = |t: Option<&str>| {
+            let mut c = case_json(ty, v, o, t, "anchored-shapes");
+            c["holder"] = json!(which);
+            c
+        };
+        if !o.empty_as_braces && tygen::has_empty_collection(ty, v) {
+            lcount("unspecified/empty-collection-without-braces", 1);
+            continue;
+        }
+        if tygen::roundtrip(rty, rv, o).fail.is_some() {
+            lcount("anchored_shapes/bare-holder-fails(reported-elsewhere)", 1);
+            continue;
+        }
+        let text = match tygen::emit(h, o) {
+            Ok(t) => t,
+            Err(Stage::Panic(p)) => {
+                report(run, &format!("C13:panic:{}", vcore::obs::panic_site(&p)), || case(None), || p.clone());
+                continue;
+            }
+            Err(st) => {
+                report(run, &format!("C13:anchored:{which}:serializer-error"), || case(None), || st.detail());
+                continue;
+            }
+        };
+        let t = if tygen::directive_without_doc_start(&text) { tygen::insert_doc_start(&text) } else { text.clone() };
+        let mut skipped = false;
+        let (def, alias) = if o.anchor_gen { ("&anc1x", "*anc1x") } else { ("&a1", "*a1") };
+        match tygen::check_text(rty, rv, &t, &mut skipped) {
+            Some(stg) => {
+                let sig = format!("C13:anchored:{which}:{}", tygen::shape_trigger_or_kind(ty, v));
+                report(run, &sig, || case(Some(&text)), || format!("{}: {}", stg.kind(), stg.detail()));
+            }
+            None => {
+                if text.matches(def).count() != 1 || !text.contains(alias) {
+                    report(run, &format!("C13:anchored:{which}:anchor-not-defined-once"), || case(Some(&text)), || format!("expected one {def} and >= 1 {alias}: {text:?}"));
+                } else {
+                    lcount("anchored_shapes/held", 1);
+                    run.nontrivial(tygen::hash_case(rty, rv, o) ^ 0xa5c0);
+                    run.observe("anchored_holders", which);
+                }
+            }
+        }
+    }
+}
+
 // ---------------------------------------------------------------- special leaves
 
 const LONG_WORD_LEN: usize = 1100;
@@ -321,9 +462,9 @@ fn subst_str(ty: &Ty, v: &TVal, from: &str, to: &str) -> (Ty, TVal) {
 }
 
 fn random_opt(rng: &mut Rng) -> Opt {
-    let mut o = Opt::from_bits(rng.below(128) as u8, *rng.pick(&[1usize, 2, 2, 2, 3, 4, 4, 5, 8, 10]));
+    let mut o = Opt::from_bits(rng.below(128) as u8, *rng.pick(&[1usize, 2, 2, 3, 4, 4, 5, 8, 8, 10]));
     if rng.chance(1, 3) {
-        o.folded_wrap_chars = *rng.pick(&[8usize, 20, 40, 200]);
+        o.folded_wrap_chars = *rng.pick(&[0usize, 1, 8, 20, 40, 200]);
     }
     o
 }
@@ -339,7 +480,9 @@ fn main() {
             std::process::exit(2);
         };
         let o = Opt::from_json(&c["opt"]);
-        if c["part"].as_str() == Some("anchored-pair") {
+        if c["part"].as_str() == Some("anchored-shapes") {
+            check_anchored_shapes(&run, &ty, &v, &o);
+        } else if c["part"].as_str() == Some("anchored-pair") {
             check_anchored(&run, &ty, &v, &o);
         } else if c["part"].as_str() == Some("unknown-length") {
             run.eval();
@@ -356,7 +499,8 @@ fn main() {
     }
 
     let tier = run.tier;
-    let max_nodes: usize = std::env::var("C13_MAX_NODES").ok().and_then(|s| s.parse().ok()).unwrap_or(tier.pick(4, 5));
+    NT_SAMPLE.store(tier.pick(4, 8), std::sync::atomic::Ordering::Relaxed);
+    let max_nodes: usize = std::env::var("C13_MAX_NODES").ok().and_then(|s| s.parse().ok()).unwrap_or(tier.pick(5, 5));
     let cap: usize = std::env::var("C13_CAP").ok().and_then(|s| s.parse().ok()).unwrap_or(tier.pick(8, 8));
     let g = TyGrammar::full();
     let by_size = ty::small_tys_by_size(max_nodes, &g);
@@ -378,12 +522,13 @@ fn main() {
         if tys.is_empty() {
             continue;
         }
-        let reduced = n >= 4 && n == max_nodes;
-        let use_opts: &[Opt] = if reduced { &opts_reduced } else { &opts };
+        // quick: the 5-node class under the 48-vector grid with 2 values per type; thorough: full grid
+        let reduced = n >= 5 && tier == Tier::Quick;
+        let use_opts: &[Opt] = if reduced { &opts_reduced[..16] } else { &opts };
         run.count(&format!("exhaustive/types_with_{n}_nodes"), tys.len() as u64);
         let incomplete = std::sync::atomic::AtomicU64::new(0);
         let pairs = std::sync::atomic::AtomicU64::new(0);
-        let cap = if n >= 5 { cap.min(4) } else { cap };
+        let cap = if n >= 5 { tier.pick(2, 3) } else { cap };
         par_range(tys.len(), |i| {
             let t = &tys[i];
             let (vals, complete) = ty::small_vals(t, cap);
@@ -407,6 +552,158 @@ fn main() {
         scope_parts.push(format!("{n} nodes: {} types x {} option vectors{}", tys.len(), use_opts.len(), if inc > 0 { format!(" ({inc} types with value list strided to {cap})") } else { String::new() }));
     }
 
+    // ---- part A2: indent steps {3, 5, 8} x 16 rows of the boolean cube on every pair of <= 4 type nodes
+    // (thorough: <= 5), and the folded_wrap_chars corners {0, 1, 8, 20} x indent {2, 4} x compact {off, on}
+    let opts_sweep: Vec<Opt> = {
+        let mut v: Vec<Opt> = Vec::new();
+        for indent in [3usize, 5, 8] {
+            for b in [0u8, 0x7f, 0x55, 0x2a, 0x33, 0x4c, 0x0f, 0x70, 0x01, 0x02, 0x04, 0x08, 0x10, 0x20, 0x40, 0x3f] {
+                v.push(Opt::from_bits(b, indent));
+            }
+        }
+        for wrap in [0usize, 1, 8, 20] {
+            for indent in [2usize, 4] {
+                for compact in [false, true] {
+                    v.push(Opt { folded_wrap_chars: wrap, indent, compact_list_indent: compact, ..Opt::default() });
+                }
+            }
+        }
+        v
+    };
+    {
+        let upto = tier.pick(4usize, 5).min(max_nodes);
+        for (n, tys) in by_size.iter().enumerate().filter(|(n, _)| *n <= upto) {
+            let cap = if n >= 5 { 2 } else { cap };
+            par_range(tys.len(), |i| {
+                let t = &tys[i];
+                let (vals, _) = ty::small_vals(t, cap);
+                for v in &vals {
+                    check_pair_all_opts(&run, t, v, &opts_sweep, "indent-and-wrap-sweep");
+                }
+                flush_local(&run);
+            });
+        }
+        scope_parts.push(format!("sweep: all pairs with <= {upto} type nodes x [indent_step {{3,5,8}} x 16 boolean rows + folded_wrap_chars {{0,1,8,20}} x indent {{2,4}} x compact_list_indent {{off,on}}] = {} vectors", opts_sweep.len()));
+    }
+
+    // ---- part A3 (thorough): a strided sample of the 6-node types (every 16th 5-node type under each
+    // unary constructor, every 8th (a,b) split under each binary constructor), 2 values, 48 vectors
+    if tier == Tier::Thorough && max_nodes >= 5 {
+        let mut six: Vec<Ty> = Vec::new();
+        for t in by_size[5].iter().step_by(16) {
+            if !t.absorbs_null() {
+                six.push(Ty::opt(t.clone()));
+            }
+            six.push(Ty::newtype(0, t.clone()));
+            six.push(Ty::seq(t.clone()));
+            for k in &g.keys {
+                six.push(Ty::map(k.clone(), t.clone()));
+            }
+            six.push(Ty::strukt(1, vec![t.clone()], false));
+            six.push(Ty::enumeration(1, 0, vec![ty::VariantTy::Unit, ty::VariantTy::Newtype(t.clone())]));
+            six.push(Ty::enumeration(2, 0, vec![ty::VariantTy::Unit, ty::VariantTy::Struct(ty::Fields::new(vec![t.clone()], false))]));
+        }
+        let mut k = 0usize;
+        for a in 1..=4usize {
+            let b = 5 - a;
+            for t in &by_size[a] {
+                for u in &by_size[b] {
+                    k += 1;
+                    if k % 8 != 0 {
+                        continue;
+                    }
+                    let pair = vec![t.clone(), u.clone()];
+                    six.push(Ty::Tuple(pair.clone()));
+                    six.push(Ty::TupleStruct(2, pair.clone()));
+                    six.push(Ty::strukt(3, pair.clone(), false));
+                    six.push(Ty::enumeration(3, 0, vec![ty::VariantTy::Unit, ty::VariantTy::Tuple(pair)]));
+                }
+            }
+        }
+        run.count("exhaustive/sampled_types_with_6_nodes", six.len() as u64);
+        par_range(six.len(), |i| {
+            let t = &six[i];
+            let (vals, _) = ty::small_vals(t, 2);
+            for v in &vals {
+                check_pair_all_opts(&run, t, v, &opts_reduced, "six-node-sample");
+            }
+            flush_local(&run);
+        });
+        scope_parts.push(format!("6 nodes (sample, not exhaustive): {} types x 2 values x 48 vectors", six.len()));
+    }
+
+    // ---- part F1: constructor chains (deep nesting): every chain of 17 constructors around 7 leaves
+    {
+        let leaves = families::chain_leaves();
+        let all_cs: Vec<usize> = (0..families::N_CONSTRUCTORS).collect();
+        // (constructor set, length, option grid)
+        let mut plans: Vec<(Vec<usize>, usize, &[Opt])> = vec![(all_cs.clone(), 1, &opts), (all_cs.clone(), 2, &opts), (all_cs.clone(), 3, &opts)];
+        if tier == Tier::Quick {
+            plans.push((all_cs.clone(), 4, &opts_reduced[..16]));
+        } else {
+            plans.push((all_cs.clone(), 4, &opts));
+            plans.push((families::CORE_CONSTRUCTORS.to_vec(), 5, &opts_reduced));
+        }
+        for (cs, len, grid) in &plans {
+            let n = cs.len().pow(*len as u32);
+            let made = std::sync::atomic::AtomicU64::new(0);
+            par_range(n, |idx| {
+                for (li, leaf) in leaves.iter().enumerate() {
+                    let Some((t, v, label)) = families::chain(cs, *len, idx, leaf) else { continue };
+                    if !tygen::keys_distinct(&t, &v) {
+                        continue;
+                    }
+                    made.fetch_add(1, std::sync::atomic::Ordering::Relaxed);
+                    if idx % 64 == 0 {
+                        observe_contexts(&run, &t, &v);
+                    }
+                    check_pair_all_opts(&run, &t, &v, grid, "chains");
+                    if (idx * 7 + li) % 50021 == 0 {
+                        run.sample(|| json!({"part": "chains", "chain": label, "ty": t.to_string(), "emitted": tygen::emit(&TSer(&t, &v), &grid[idx % grid.len()]).ok()}));
+                    }
+                }
+                if idx % 256 == 0 {
+                    flush_local(&run);
+                }
+            });
+            let m = made.load(std::sync::atomic::Ordering::Relaxed);
+            run.count(&format!("chains/length_{len}_values"), m);
+            scope_parts.push(format!("chains of length {len} over {} constructors x 7 leaves: {m} values x {} vectors", cs.len(), grid.len()));
+        }
+    }
+
+    // ---- part F2: maps keyed by 15 composite key shapes over every small value, in 5 host positions
+    {
+        let cases = families::keyed_maps(2, tier.pick(4, 8));
+        run.count("composite_keys/values", cases.len() as u64);
+        let grid: &[Opt] = if tier == Tier::Quick { &opts_reduced } else { &opts };
+        par_range(cases.len(), |i| {
+            let (t, v, label) = &cases[i];
+            if i % 16 == 0 {
+                observe_contexts(&run, t, v);
+            }
+            check_pair_all_opts(&run, t, v, grid, "composite-keys");
+            check_pair_all_opts(&run, t, v, &opts_sweep, "composite-keys");
+            if i % 9973 == 0 {
+                run.sample(|| json!({"part": "composite-keys", "case": label, "ty": t.to_string(), "emitted": tygen::emit(&TSer(t, v), &Opt::default()).ok()}));
+            }
+            flush_local(&run);
+        });
+        scope_parts.push(format!("composite keys: 15 key shapes x every value with <= 2 type nodes x 1..2 entries x 5 hosts = {} values x ({} + {}) vectors", cases.len(), grid.len(), opts_sweep.len()));
+    }
+
+    // ---- part F3: byte buffers in every position
+    {
+        let cases = families::bytes_cases();
+        run.count("bytes/values", cases.len() as u64);
+        par_range(cases.len(), |i| {
+            let (t, v) = &cases[i];
+            check_pair_all_opts(&run, t, v, &opts, "bytes");
+            flush_local(&run);
+        });
+        scope_parts.push(format!("byte buffers: 5 payloads x 16 constructors x 4 outer constructors = {} values x 384 vectors", cases.len()));
+    }
+
     // ---- part B: block-scalar leaf variants and long leaves in every small position
     {
         let small: Vec<(Ty, TVal)> = ty::small_pairs(3.min(max_nodes), &g, cap);
@@ -422,6 +719,9 @@ fn main() {
                 let use_opts: Vec<Opt> = if sp.len() > 400 { opts_b.iter().step_by(5).cloned().collect() } else { opts_b.clone() };
                 let (t2, v2) = subst_str(t, v, "two\nlines", sp);
                 check_pair_all_opts(&run, &t2, &v2, &use_opts, "special-leaves");
+                if sp.len() <= 400 {
+                    check_pair_all_opts(&run, &t2, &v2, &opts_sweep, "special-leaves");
+                }
                 if (i + k) % 997 == 0 {
                     run.sample(|| json!({"ty": t2.to_string(), "v": format!("{v2:?}").chars().take(300).collect::<String>(), "part": "special-leaves"}));
                 }
@@ -457,6 +757,21 @@ fn main() {
             }
             flush_local(&run);
         });
+    }
+
+    // ---- part C2: one shared RcAnchor value inside the shapes (6 holders), read back through the plain types
+    {
+        let small: Vec<(Ty, TVal)> = ty::small_pairs(3.min(max_nodes), &g, tier.pick(4, 8));
+        run.count("anchored_shapes/host_pairs", small.len() as u64);
+        let grid: Vec<Opt> = if tier == Tier::Quick { opts_reduced.clone() } else { opts.iter().filter(|o| !o.tagged_enums || o.indent == 2).cloned().collect() };
+        par_range(small.len(), |i| {
+            let (t, v) = &small[i];
+            for o in &grid {
+                check_anchored_shapes(&run, t, v, o);
+            }
+            flush_local(&run);
+        });
+        scope_parts.push(format!("anchors: every pair with <= 3 type nodes shared through RcAnchor in 6 holders x {} vectors", grid.len()));
     }
 
     // ---- part E: the same small trees serialized without announced lengths (serialize_seq(None) /
@@ -511,12 +826,12 @@ fn main() {
     }
 
     // ---- part D: random trees to depth 6 with sampled options
-    let n_random = std::env::var("C13_RANDOM").ok().and_then(|s| s.parse().ok()).unwrap_or(tier.pick(150_000usize, 2_000_000));
+    let n_random = std::env::var("C13_RANDOM").ok().and_then(|s| s.parse().ok()).unwrap_or(tier.pick(400_000usize, 6_000_000));
     let specials = special_strings();
     par_range(n_random, |i| {
         let mut rng = Rng::stream(run.seed, i as u64);
-        let depth = rng.range(2, 6);
-        let cfg = TyCfg { nullable_in_option: false, defaults: false, deny_unknown: true, bytes: false, floats: true };
+        let depth = rng.range(2, 7);
+        let cfg = TyCfg { nullable_in_option: false, defaults: false, deny_unknown: true, bytes: true, floats: true };
         let t = ty::random_ty_with(&mut rng, depth, &cfg);
         let v = ty::random_val(&mut rng, &t);
         let (t, v) = if rng.chance(1, 6) {
@@ -556,10 +871,10 @@ fn main() {
     }
 
     let fin = Finish::new(
-        "a case (type, value, option vector) is non-trivial when the value tree has >= 2 nodes and the case was judged (held); distinct by hash(type, value, options)",
+        "a case (type, value, option vector) is non-trivial when the value tree has >= 2 nodes and the case was judged (held); distinct by hash(type, value, options); distinct_nontrivial is the number of distinct hashes in a deterministic 1/4 (quick) / 1/8 (thorough) sample by hash value, the exact number of non-trivial judged cases is the counter nontrivial_held_cases",
     )
     .exhaustive(format!(
-        "all types of the C13 shape grammar (vcore::ty::TyGrammar::full: 8 leaf types, 6 key types incl. tuple and struct keys, option/newtype/seq/map/struct/newtype-variant/struct-variant/tuple/tuple-struct/tuple-variant constructors) with <= {max_nodes} type nodes x small values (leaf pools incl. empty, multi-line, quote-needing and null-like strings, negative ints; seqs/maps of length 0..2) x option vectors [all 2^7 booleans x indent_step {{2,1,4}} = 384; the largest size class: 16 rows of the boolean cube (default, all toggled, each single toggle, 7 mixed) x 3 indent steps = 48]: {}",
+        "all types of the C13 shape grammar (vcore::ty::TyGrammar::full: 8 leaf types, 6 key types incl. tuple and struct keys, option/newtype/seq/map/struct/newtype-variant/struct-variant/tuple/tuple-struct/tuple-variant constructors) with <= {max_nodes} type nodes x small values (leaf pools incl. empty, multi-line, quote-needing and null-like strings, negative ints; seqs/maps of length 0..2) x option vectors [full grid = all 2^7 booleans x indent_step {{2,1,4}} = 384; reduced grids = 16 rows of the boolean cube (default, all toggled, each single toggle, 7 mixed) x indent steps {{2,1,4}} = 48, or the 16 rows at indent 2]: {}",
         scope_parts.join("; ")
     ))
     .assume("raw saphyr-parser event stream is the ground truth for well-formedness and the number of documents")
